@@ -248,6 +248,8 @@ def c04(ctx):
     rows = gen.random_plain(ctx.rng, "cc14", ctx.q(8000, 60000)) + gen.random_plain(ctx.rng, "pn", ctx.q(8000, 60000), first_id=2) \
         + gen.random_poll(ctx.rng, ctx.q(8000, 60000), first_id=3) + gen.roundtrip_cc14(ctx.rng, ctx.q(500, 5000), first_id=4) \
         + gen.roundtrip_pn(ctx.rng, ctx.q(500, 5000), first_id=5)
+    for kind in ("cc14", "pn", "poll"):
+        rows += gen.extreme_values(ctx.rng, kind, ctx.q(6000, 60000))
     scanners.run_script(ctx, rows, "ranges-of-scanner-and-encoder-outputs")
     events = ctx.events
     finish_pure(ctx, "rows: every implemented conversion into each of the six types - exhaustive for 8/16-bit and newtype "
